@@ -184,6 +184,8 @@ Proof.
   destruct (at_event _ _ _ _ _ R E) as (v & v' & [G A] & St).
   cbn [vstep] in St. destruct St as [Hg _]. cbn [told_guard] in Hg.
   pose proof (A T) as HTc. destruct (t_muts _ _ _ HTc _ _ Hm) as (Hh & Hp & Hl).
+  apply orb_true_iff in Hg. destruct Hg as [Hg | Hd].
+  2: { exfalso. repeat (apply andb_true_iff in Hd; destruct Hd as [Hd _]). apply negb_true_iff, fb_false in Hd. contradiction. }
   apply orb_true_iff in Hg. destruct Hg as [Hg | Hg]; [apply orb_true_iff in Hg; destruct Hg as [Hg | Hg]|].
   - left. apply negb_true_iff, N.eqb_neq in Hg.
     destruct (t_pcok _ _ _ HTc Hg) as (r & ks & Hi & Hk). rewrite Hp in Hk. exists r, (cn (vgetc v T) FPcOk), ks. split; assumption.
